@@ -775,6 +775,11 @@ func (vfs *MemFS) remove(name string) (again bool, err error) {
 	child.Lock()
 	defer child.Unlock()
 
+	if childUid, _ := child.owner(); parent.stickyDenied(childUid, vfs.User()) {
+		// in a sticky directory only the owner of the entry or of the directory removes an entry.
+		return false, &fs.PathError{Op: op, Path: name, Err: vfs.err.OpNotPermitted}
+	}
+
 	if c, ok := child.(*dirNode); ok {
 		if len(c.children) != 0 {
 			return false, &fs.PathError{Op: op, Path: name, Err: vfs.err.DirNotEmpty}
@@ -988,6 +993,32 @@ func (vfs *MemFS) rename(oldpath, newpath string) (again bool, err error) {
 	if nChild == oChild {
 		// oldpath and newpath are hard links to the same file.
 		return false, nil
+	}
+
+	oChild.Lock()
+	oUid, _ := oChild.owner()
+	_, oIsDir := oChild.(*dirNode)
+	oWritable := oChild.checkPermission(avfs.OpenWrite, vfs.User())
+	oChild.Unlock()
+
+	if oParent.stickyDenied(oUid, vfs.User()) {
+		// in a sticky directory only the owner of the entry or of the directory renames an entry.
+		return false, &os.LinkError{Op: op, Old: oldpath, New: newpath, Err: vfs.err.OpNotPermitted}
+	}
+
+	if oIsDir && nParent != oParent && !oWritable {
+		// a directory that gets a new parent is written to (its ".." entry changes).
+		return false, &os.LinkError{Op: op, Old: oldpath, New: newpath, Err: vfs.err.PermDenied}
+	}
+
+	if nChild != nil {
+		nChild.Lock()
+		nUid, _ := nChild.owner()
+		nChild.Unlock()
+
+		if nParent.stickyDenied(nUid, vfs.User()) {
+			return false, &os.LinkError{Op: op, Old: oldpath, New: newpath, Err: vfs.err.OpNotPermitted}
+		}
 	}
 
 	if nChild != nil {
